@@ -268,14 +268,18 @@ harness!(uniform_rejects, unwind = 4, |s| {
 // each conversion in its own (small) harness: two symbols, P = 3
 macro_rules! conversion {
     ($name:ident, |$m:ident, $sym:ident, $q:ident, $want_e:ident, $want_d:ident| $body:block) => {
+        conversion!($name, 3, |$m, $sym, $q, $want_e, $want_d| $body);
+    };
+    ($name:ident, $P:expr, |$m:ident, $sym:ident, $q:ident, $want_e:ident, $want_d:ident| $body:block) => {
         harness!($name, unwind = 12, |s| {
+            const T: u8 = 1 << $P;
             let p0 = s.u8();
-            s.assume(p0 >= 1 && p0 <= 7);
-            let probs = [p0, 8 - p0];
+            s.assume(p0 >= 1 && p0 <= T - 1);
+            let probs = [p0, T - p0];
             let $sym = s.usize();
             let $q = s.u8();
-            s.assume($q < 8 && $sym < 2);
-            let $m = ContiguousCategoricalEntropyModel::<u8, Vec<u8>, 3>::from_nonzero_fixed_point_probabilities(&probs[..], false).ok().unwrap();
+            s.assume($q < T && $sym < 2);
+            let $m = ContiguousCategoricalEntropyModel::<u8, Vec<u8>, $P>::from_nonzero_fixed_point_probabilities(&probs[..], false).ok().unwrap();
             let $want_e = $m.left_cumulative_and_probability($sym);
             let $want_d = $m.quantile_function($q);
             assert!($want_e.is_some());
